@@ -39,6 +39,7 @@ def TR(m, t): return ("R", m, t)
 def TS(t): return ("S", t)
 
 RUST_BASE = {"Int": "i32", "Str": "str", "String": "String", "Nd": "Nd", "Opt": "Option<i32>", "Gen": "T", "GenD": "U",
+             "ImpD": "impl std::fmt::Debug + 'static",      # argument-position impl Trait with a Debug bound: the model's class is that of U: Debug
              "Imp": "&mut Lt<'_>"}     # the whole parameter type: a unique borrow of a type with a lifetime = the macro's Impossible class
 
 
@@ -49,7 +50,7 @@ def rust_ty(t):
 
 
 def coq_ty(t):
-    if t[0] == "B": return f"(TB B{t[1]})"
+    if t[0] == "B": return "(TB BGenD)" if t[1] == "ImpD" else f"(TB B{t[1]})"
     if t[0] == "R": return f"(TRef {'true' if t[1] else 'false'} {coq_ty(t[2])})"
     return f"(TSlice {coq_ty(t[1])})"
 
@@ -90,6 +91,7 @@ TYPE_POOL = (
     + [TR(False, TS(TB(b))) for b in ("Int", "Int", "Nd", "Gen", "GenD")] + [TR(True, TS(TB("Int")))]
     + [TR(False, TS(TR(False, TB("Int"))))]
     + [TB("Imp"), TB("Imp")]
+    + [TB("ImpD"), TB("ImpD")]
 )
 
 # ---- mirror of Macro/Debug.v (used only to steer generation away from programs rustc rejects)
@@ -123,7 +125,7 @@ def gen_value(rng, t):
     if c[0] == "S":
         return ("L", [gen_value(rng, c[1]) for _ in range(rng.choice([0, 1, 1, 2, 2, 3]))])
     b = c[1]
-    if b in ("Int", "Gen", "GenD", "Imp"): return ("I", rng.choice(DOM_INT))
+    if b in ("Int", "Gen", "GenD", "Imp", "ImpD"): return ("I", rng.choice(DOM_INT))
     if b in ("Str", "String"): return ("Str", rng.choice(DOM_STR))
     if b == "Nd": return ("C", rng.choice("AB"), [])
     return rng.choice([("C", "None", []), ("C", "Some", [("I", rng.choice(DOM_INT[:3]))])])
@@ -139,7 +141,7 @@ def rust_val(t, v):
             return ("&mut [" if t[1] else "&[") + ", ".join(rust_val(inner[1], x) for x in v[1]) + "]"
         return ("&mut " if t[1] else "&") + rust_val(inner, v)
     b = t[1]
-    if b in ("Int", "Gen", "GenD"): return str(v[1])
+    if b in ("Int", "Gen", "GenD", "ImpD"): return str(v[1])
     if b == "Imp": return f"&mut Lt({v[1]}, std::marker::PhantomData)"
     if b == "String": return f'"{v[1]}".to_string()'
     if b == "Nd": return "Nd::" + v[1]
@@ -213,7 +215,7 @@ def arg_expr_type(kind, t):
 
 
 def inst(t):
-    if t[0] == "B": return ("B", "Int") if t[1] in ("Gen", "GenD") else t
+    if t[0] == "B": return ("B", "Int") if t[1] in ("Gen", "GenD", "ImpD") else t
     return ("R", t[1], inst(t[2])) if t[0] == "R" else ("S", inst(t[1]))
 
 
@@ -607,9 +609,13 @@ def emit_case(em, k, case):
     for _ in range(case["pad"][0]):
         em.emit("// pad")
     em.emit(f"fn case{k}() {{")
-    wt = ".with_types::<i32, i32>()" if gen else ""
+    # argument-position `impl Debug` parameters become further type parameters of the method's MockFn (after the trait's own)
+    n_imp = sum(1 for t in sig if t == TB("ImpD"))
+    wts = {1: (".with_types::<i32, i32>()" if gen else ""),
+           0: (".with_types::<" + ", ".join(["i32"] * ((2 if gen else 0) + n_imp)) + ">()") if (gen or n_imp) else ""}
     names = []
     for ci, c in enumerate(case["clauses"]):
+        wt = wts[0 if c["mid"] == 0 else 1]
         mock = (f"{tname}{'m' if c['mid'] == 0 else 'aux'}{wt}" if flat else f"{tname}Mock::{'m' if c['mid'] == 0 else 'aux'}{wt}")
         rnc = case["ret_nc"] and c["mid"] == 0
         for _ in range(case["pad"][1 + ci % 3] if ci else 0):
